@@ -8,7 +8,7 @@ CONSTANTS
   NameAlphabet = {35, 47, 32, 97, 49, 40, 0, 127, 128}
   MaxStr = 1
   MaxName = 1
-  TokKinds = {"null", "true", "false", "int", "negint", "real", "name", "namedig", "str", "hexstr", "arr", "dict", "ref", "nilarr", "nildict"}
+  TokKinds = {"null", "true", "false", "int", "negint", "real", "name", "namedig", "str", "hexstr", "arr", "dict", "ref", "refmax", "nilarr", "nildict"}
   MaxToks = 3
   OptSets = {{}, {"Pretty"}, {"ContentStream"}, {"Pretty", "ContentStream", "DictTypes", "TextStringUtf8", "TrimStandardFonts"}}
   RenderStrMax = 2
